@@ -117,3 +117,120 @@ Definition spec_verdict (c : nat * list nat) : Z :=
   match c with (kind, rec) =>
     if (match kind with O => is_tourb rec | _ => pdp_validb rec end) then 1%Z else 0%Z
   end.
+
+(* ==================================================================== full cases (vt/props/c09.py)
+   The instance's distances travel as data (matrix of scaled integers, D[i][j] = |locs[j] - locs[i]| as torch
+   computed it), so the model computes every cost itself.  A step is either a move through _local_operator
+   ([None]) or ImprovementEnvBase.step_to_solution ([Some target]).
+   Two functions, so that "model differs from code" and "the property's specification is false on the code's
+   own outputs" are reported separately; [check_both] packs them as  full + 10^9 * spec.
+   Tags (code = 1000 * step + tag, step 0 = reset):
+     1 move not admitted by the model mask / builder     2 rec_current     3 rec_best     4 visited_time
+     5 cost_bsf     6 reward     7 cost of rec_best recomputed with the real get_costs <> cost_bsf
+     8 tour validity (is_tourb / pdp_validb)     9 cost_bsf <> min of the costs seen
+     10 rewards do not sum to initial - best     11 cost_current <> length of the current tour (from D)
+     12 cost_bsf <> length of the stored best tour (from D)     13 wrong shape of the case (lengths)      *)
+Definition fstep := (option (list nat) * obs)%type.
+
+Definition next_of (o : opk) (rec : list nat) (st : fstep) : list nat :=
+  match fst st with Some t => t | None => apply_op o rec (o_action (snd st)) end.
+
+Fixpoint run_full (o : opk) (D : list (list Z)) (ctol rtol : Z) (k : Z) (s : bstate (list nat))
+         (steps : list fstep) : Z :=
+  match steps with
+  | [] => 0%Z
+  | st :: rest =>
+      let ob := snd st in
+      let rec := rec_current s in
+      if (match fst st with None => o_check_adm ob && negb (move_ok o rec (o_action ob)) | Some _ => false end)
+      then (1000 * k + 1)%Z else
+      let next := next_of o rec st in
+      if negb (list_eqb next (o_rec_current ob)) then (1000 * k + 2)%Z
+      else if negb (Zabs_le (get_costs (Dfun D) next) (o_cost_current ob) ctol) then (1000 * k + 11)%Z
+      else
+        (* the comparison new_obj < cost_bsf is made on the value the code stored (equal to the model's cost
+           up to ctol; ctol = 0 on the exact stream) so that float32 rounding of a sum cannot flip it *)
+        let '(s', rw) := bsf_update (list nat) s next (o_cost_current ob) in
+        if negb (list_eqb (rec_best s') (o_rec_best ob)) then (1000 * k + 3)%Z
+        else if negb (list_eqb (visited_time next) (o_vt ob)) then (1000 * k + 4)%Z
+        else if negb (Z.eqb (cost_bsf s') (o_cost_bsf ob)) then (1000 * k + 5)%Z
+        else if negb (Zabs_le rw (o_reward ob) rtol) then (1000 * k + 6)%Z
+        else run_full o D ctol rtol (k + 1)%Z s' rest
+  end.
+
+(* (operator, D, (cost tolerance, reward tolerance), initial tour, observation at reset, steps) *)
+Definition full_case := (opk * list (list Z) * (Z * Z) * list nat * obs * list fstep)%type.
+
+Definition check_full (c : full_case) : Z :=
+  match c with (o, D, (ctol, rtol), init, ob0, steps) =>
+    if negb (list_eqb init (o_rec_current ob0)) then 2%Z
+    else if negb (list_eqb init (o_rec_best ob0)) then 3%Z
+    else if negb (list_eqb (visited_time init) (o_vt ob0)) then 4%Z
+    else if negb (Zabs_le (get_costs (Dfun D) init) (o_cost_current ob0) ctol) then 11%Z
+    else if negb (Z.eqb (o_cost_current ob0) (o_cost_bsf ob0)) then 5%Z
+    else
+      let s0 := {| rec_current := init; rec_best := init;
+                   cost_current := o_cost_current ob0; cost_bsf := o_cost_bsf ob0 |} in
+      run_full o D ctol rtol 1%Z s0 steps
+  end.
+
+(* ---- the specification evaluated on the implementation's own outputs only (no operator model involved) *)
+Definition vt_is_position (rec vt : list nat) : bool :=
+  let n := length rec in
+  let order := walk rec 0 n in
+  Nat.eqb (length vt) n &&
+  forallb (fun v => Nat.eqb (nth v vt 0) (if Nat.eqb v 0 then n else index_of v order)) (seq 0 n).
+
+Definition spec_len (D : list (list Z)) (rec : list nat) : Z := tour_length (Dfun D) (walk rec 0 (length rec)).
+
+Fixpoint run_spec (o : opk) (D : list (list Z)) (ctol rtol : Z) (k : Z) (n : nat) (bsf minseen sumrw c0 : Z)
+         (steps : list fstep) : Z :=
+  match steps with
+  | [] => if Zabs_le sumrw (c0 - bsf) (rtol * k)%Z then 0%Z else (1000 * k + 10)%Z
+  | st :: rest =>
+      let ob := snd st in
+      let minseen' := Z.min minseen (o_cost_current ob) in
+      if negb (Nat.eqb (length (o_rec_current ob)) n && Nat.eqb (length (o_rec_best ob)) n) then (1000 * k + 13)%Z
+      else if negb (validb o (o_rec_current ob) && validb o (o_rec_best ob)) then (1000 * k + 8)%Z
+      else if negb (vt_is_position (o_rec_current ob) (o_vt ob)) then (1000 * k + 4)%Z
+      else if negb (Zabs_le (spec_len D (o_rec_current ob)) (o_cost_current ob) ctol) then (1000 * k + 11)%Z
+      else if negb (Zabs_le (spec_len D (o_rec_best ob)) (o_cost_bsf ob) ctol) then (1000 * k + 12)%Z
+      else if negb (Z.eqb (o_cost_of_best ob) (o_cost_bsf ob)) then (1000 * k + 7)%Z
+      else if negb (Z.eqb minseen' (o_cost_bsf ob)) then (1000 * k + 9)%Z
+      else if negb (Zabs_le (bsf - o_cost_bsf ob) (o_reward ob) rtol) then (1000 * k + 6)%Z
+      else run_spec o D ctol rtol (k + 1)%Z n (o_cost_bsf ob) minseen' (sumrw + o_reward ob)%Z c0 rest
+  end.
+
+Definition check_spec (c : full_case) : Z :=
+  match c with (o, D, (ctol, rtol), init, ob0, steps) =>
+    let n := length init in
+    if negb (Nat.eqb (length (o_rec_current ob0)) n && Nat.eqb (length (o_rec_best ob0)) n) then 13%Z
+    else if negb (validb o (o_rec_current ob0) && validb o (o_rec_best ob0)) then 8%Z
+    else if negb (vt_is_position (o_rec_current ob0) (o_vt ob0)) then 4%Z
+    else if negb (Zabs_le (spec_len D (o_rec_current ob0)) (o_cost_current ob0) ctol) then 11%Z
+    else if negb (Zabs_le (spec_len D (o_rec_best ob0)) (o_cost_bsf ob0) ctol) then 12%Z
+    else if negb (Z.eqb (o_cost_of_best ob0) (o_cost_bsf ob0)) then 7%Z
+    else run_spec o D ctol rtol 1%Z n (o_cost_bsf ob0) (o_cost_current ob0) 0%Z (o_cost_current ob0) steps
+  end.
+
+Definition check_both (c : full_case) : Z := (check_full c + 1000000000 * check_spec c)%Z.
+
+(* ---- k-opt: the whole support of the sequential move builder on one tour (all draws cs in [0,n)^k the model
+   admits), as action lists, flattened with the length k*3 known -- used to measure how much of the builder's
+   support the implementation's sampler was seen to produce, and to check [is_tourb] on all of it *)
+Fixpoint all_draws (n k : nat) : list (list nat) :=
+  match k with O => [[]] | S k' => flat_map (fun c => map (cons c) (all_draws n k')) (seq 0 n) end.
+
+Definition builder_support (k : nat) (rec : list nat) : list (list nat) :=
+  flat_map (fun cs => match kopt_builder k rec cs with Some a => [a] | None => [] end) (all_draws (length rec) k).
+
+(* (k, tour, actions the implementation's sampler produced): returns 0 when each is in the model support and
+   every action of the model support yields a tour; 1 = implementation action outside the support;
+   2 = some supported action yields a non-tour *)
+Definition check_support (c : nat * list nat * list (list nat)) : Z :=
+  match c with (k, rec, acts) =>
+    let sup := builder_support k rec in
+    if negb (forallb (fun a => existsb (list_eqb a) sup) acts) then 1%Z
+    else if negb (forallb (fun a => is_tourb (k_opt k rec a)) sup) then 2%Z
+    else 0%Z
+  end.
